@@ -589,7 +589,8 @@ impl<'a> Tx<'a> {
             "next_table" if self.ops => format!("h.next_table({})", self.expr(&m.receiver)),
             "iter" if self.ops && toks(&*m.receiver) == "self" => "iter_new(h, this)".to_string(),
             "next_internal" if self.ops => format!("iter_next(h, &mut {})", self.expr(&m.receiver)),
-            "replace_node" | "put" if self.ops && toks(&*m.receiver) == "self" => {
+            "before" | "after" if self.ops => format!("{}.{}()", self.expr(&m.receiver), name),
+            "replace_node" | "put" | "insert" | "try_insert" if self.ops && toks(&*m.receiver) == "self" => {
                 let mut all = vec!["h".to_string(), "this".to_string()];
                 for a in m.args.iter().filter(|a| !is_drop_arg(a)) {
                     let v = self.expr(a);
@@ -1074,6 +1075,13 @@ impl<'a> Tx<'a> {
                 self.loop_body(&w.body, ind, ln);
                 self.break_targets.pop();
             }
+            syn::Expr::Match(_) if self.verbatim && !semi => {
+                // VERBATIM: a match in tail position is the function's value
+                let k = self.ret_count;
+                self.ret_count += 1;
+                self.mark(ind, format!("ret#{}", k));
+                self.push(ind, toks(e), ln, true);
+            }
             syn::Expr::Match(m) => {
                 // statement-level match: arms as blocks
                 let mut scrut = self.expr(&m.expr);
@@ -1299,7 +1307,16 @@ pub fn generate(idx: &SrcIndex, template: &str) -> ArenaOut {
             continue;
         }
         let fnv = t.strip_prefix("//@FNV ");
-        if let Some(key) = t.strip_prefix("//@FN ").or(fnv) {
+        // //@FNC <fn key> <k>: the body of the k-th closure expression inside that function, translated like a function body
+        let fnc = t.strip_prefix("//@FNC ");
+        let mut closure_no: Option<usize> = None;
+        let fnc_key: Option<String> = fnc.map(|r| {
+            let mut it = r.split_whitespace();
+            let k = it.next().unwrap_or("").to_string();
+            closure_no = it.next().and_then(|x| x.parse().ok());
+            k
+        });
+        if let Some(key) = t.strip_prefix("//@FN ").or(fnv).or(fnc_key.as_deref()) {
             let verbatim = fnv.is_some();
             let ops = template.contains("//@DIALECT OPS");
             let own = template.contains("//@DIALECT OWN") || ops;
@@ -1338,9 +1355,43 @@ pub fn generate(idx: &SrcIndex, template: &str) -> ArenaOut {
                 i += 1;
             }
             i += 1;
-            match idx.find_fn(&key) {
+            let closure_fn: Option<FnInfo> = match (closure_no, idx.find_fn(&key)) {
+                (Some(k), Some(f0)) => {
+                    struct Cl { found: Vec<syn::ExprClosure> }
+                    impl<'ast> syn::visit::Visit<'ast> for Cl {
+                        fn visit_expr_closure(&mut self, c: &'ast syn::ExprClosure) {
+                            self.found.push(c.clone());
+                            syn::visit::visit_expr_closure(self, c);
+                        }
+                    }
+                    let mut v = Cl { found: vec![] };
+                    syn::visit::Visit::visit_block(&mut v, &f0.block);
+                    match v.found.get(k) {
+                        Some(c) => {
+                            let block: syn::Block = match &*c.body {
+                                syn::Expr::Block(b) => b.block.clone(),
+                                other => syn::parse_quote!({ #other }),
+                            };
+                            let mut f1 = f0.clone();
+                            f1.line_start = c.span().start().line;
+                            f1.line_end = c.span().end().line;
+                            f1.block = block;
+                            Some(f1)
+                        }
+                        None => {
+                            errors.push(format!("lost anchor: function {} has no closure #{}", key, k));
+                            None
+                        }
+                    }
+                }
+                _ => None,
+            };
+            let found = if closure_no.is_some() { closure_fn.as_ref() } else { idx.find_fn(&key) };
+            match found {
                 None => {
-                    errors.push(format!("lost anchor: function {} not found", key));
+                    if closure_no.is_none() {
+                        errors.push(format!("lost anchor: function {} not found", key));
+                    }
                 }
                 Some(f) => {
                     let mut tx = Tx { f, lines: vec![], errors: vec![], aliases: vec![], loop_count: 0, ret_count: 0, self_is_bin: f.owner == "TreeBin" && !own, pre: vec![], tmp_count: 0, verbatim, self_ptr: own, ctx: vec![], lock_vars: vec![], value_vars: vec![], ops, break_targets: vec![] };
